@@ -15,7 +15,10 @@ def scratch(patch):
     d = tempfile.mkdtemp(prefix="regr-", dir="/tmp")
     shutil.copytree(os.path.join(REPO, "src"), os.path.join(d, "src"))
     shutil.copy(os.path.join(REPO, "CMakeLists.txt"), os.path.join(d, "CMakeLists.txt"))
-    a = subprocess.run(["patch", "-p1", "-s", "-d", d, "-i", patch], capture_output=True, text=True)
+    sys.path.insert(0, os.path.join(VERIF, "lib"))
+    import corpus
+    patch = corpus.library_part(patch, d)
+    a = subprocess.run(["patch", "-p1", "-s", "-f", "-d", d, "-i", patch], capture_output=True, text=True)
     return d, a.returncode == 0
 
 
